@@ -69,7 +69,7 @@ func runC06(c *core.Ctx) {
 	c.Floor("R06.2", 2)
 	c.Floor("R06.3", 15)
 	c.Floor("R06.4", 1)
-	c.Floor("R06.5", 3)
+	c.Floor("R06.5", 4)
 	c.Floor("R06.6", 15)
 	c.Floor("R06.7", 15)
 	c.Floor("R06.8", 2)
@@ -592,7 +592,7 @@ func r06Rename(c *core.Ctx, p *load.Program) {
 	if cerr != nil {
 		init.SetNil(cerr, ssax.IsNil)
 	}
-	var noCleanup, earlyRemove []string
+	var noCleanup, earlyRemove, lateSteps []string
 	eidx := ssax.ErrorResultIndex(rn.Signature)
 	var closeErrs []ssa.Value
 	ssax.EnumPaths(rn, blk, idx+1, init, ssax.PathHooks{
@@ -603,6 +603,12 @@ func r06Rename(c *core.Ctx, p *load.Program) {
 			}
 			if isRemoveOf(cl, newFS, newSub) {
 				s.Counts["removedNew"] = 1
+			}
+			// a step on the destination that can fail, after the source is gone: its failure loses the file on both sides
+			if s.Counts["removedOld"] == 1 && !isRemoveOf(cl, newFS, newSub) && len(cl.Call.Args) > 0 && cl.Call.Args[0] == newFS {
+				if callee := ssax.StaticCallee(cl); callee != nil && p.InModule(callee) && ssax.ErrorResultIndex(callee.Signature) >= 0 {
+					lateSteps = append(lateSteps, ssax.CallName(cl)+" at "+p.Pos(cl.Pos()))
+				}
 			}
 			if cl.Call.IsInvoke() && cl.Call.Method.Name() == "Close" && dest != nil && s.Resolve(cl.Call.Value) == ssa.Value(dest) {
 				s.Counts["closed"] = 1
@@ -650,6 +656,8 @@ func r06Rename(c *core.Ctx, p *load.Program) {
 		fmt.Sprintf("mount.Rename: after the destination file was created, the failing return(s) at %s are reached without removing it — a failed cross-mount rename leaves a (partial) file at the destination", dedup(noCleanup)))
 	c.Check(len(earlyRemove) == 0, "R06.5", "mount.Rename|source-removed-last", p.Pos(create.Pos()), "the source is removed only after the copy and a nil destination Close",
 		fmt.Sprintf("mount.Rename: %s — if the destination's Close (where data is committed) fails, the file is lost on both sides", dedup(earlyRemove)))
+	c.Check(len(lateSteps) == 0, "R06.5", "mount.Rename|nothing-fallible-after-the-source-is-removed", p.Pos(create.Pos()), "no step on the destination follows the removal of the source",
+		fmt.Sprintf("mount.Rename: after the source was removed a step on the destination can still fail (%s): the failure path then deletes the copy as well — the file is lost on both sides where the call must fail leaving both unchanged", dedup(lateSteps)))
 	// destination opened with truncate and without exclusivity: an existing destination is destroyed before the copy is known good
 	if k, ok := ssax.ConstInt(create.Call.Args[2]); ok {
 		trunc := constOf(p, "FlagTruncate")
